@@ -338,6 +338,93 @@ def run_history(acc: Acc, case):
     return fails
 
 
+def run_free_history(acc: Acc, case):
+    """History of single-request calls, each with its own free fault script.  The expected counter follows the OBSERVED outcomes:
+    success -> 0, RequestFailedException -> +1 (and must carry exactly that number), RequestRejectedException -> unchanged (D3)."""
+    from goodwe.exceptions import InverterError, RequestFailedException, RequestRejectedException
+    acc.case()
+    family, port, T, R = case["family"], case["port"], case["T"], case["R"]
+    acc.nontrivial("Bfree", family, port, case["keep"], T, R, repr(case["steps"]))
+    sim = make_sim(family)
+    peer = ScriptedPeer(responder(family, port, sim), [], default=("drop",))
+    world = World(peer)
+    loop = VLoop(world, max_time=1e5)
+    inv = make_inverter(family, port, T, R, case["keep"])
+    obs = []
+
+    async def main():
+        import asyncio
+        for st_ in case["steps"]:
+            peer.set_script(netcase.to_actions(st_["script"], T), default=netcase.to_actions([st_.get("default", ["drop"])], T)[0])
+            world.connect_script = list(st_.get("connect", []))
+            try:
+                await inv.read_setting("modbus-1793" if family == "ES" else "modbus-47000")
+                obs.append(("ok", None))
+            except asyncio.CancelledError as ex:
+                obs.append(("CancelledError", ex))
+            except BaseException as ex:  # noqa
+                obs.append((type(ex).__name__, ex))
+            if st_.get("gap"):
+                await asyncio.sleep(netcase.secs(st_["gap"], T))
+
+    out = loop.run(main())
+    loop.idle()
+    loop.shutdown()
+    if out.hang is not None or out.exc is not None:
+        return [("C09|B|hang", "free history: %r %r" % (out.hang, out.exc), case)]
+    fails = []
+    count = 0
+    for i, (kind, ex) in enumerate(obs):
+        acc.cls("Bfree|%s" % kind)
+        if kind == "ok":
+            count = 0
+        elif isinstance(ex, RequestFailedException):
+            count += 1
+            if ex.consecutive_failures_count != count:
+                fails.append(("C09|B|wrong-count", "free history step %d: consecutive_failures_count=%r, %d failed requests since the last "
+                              "success (outcomes so far %s)" % (i, ex.consecutive_failures_count, count, [k for k, _ in obs[:i + 1]]), case))
+                break
+        elif isinstance(ex, (RequestRejectedException, ValueError)):
+            pass
+        elif not isinstance(ex, InverterError):
+            fails.append(("C09|A|%s|%s" % ("raw-OSError" if isinstance(ex, OSError) else kind, _innermost_goodwe_frame(ex)),
+                          "read_setting raised %r in a free history" % (ex,), case))
+            break
+    return fails
+
+
+def hyp_b_job(job):
+    seed, n = job
+    from hypothesis import strategies as st
+    acc = Acc()
+    tick = st.one_of(st.integers(0, 15), st.integers(17, 40))
+    err = st.sampled_from(ERRS)
+    simple = st.one_of(
+        st.just(["drop"]), st.tuples(st.just("answer"), tick).map(list), st.tuples(st.just("garbage"), tick).map(list),
+        st.tuples(st.just("bad"), tick).map(list), st.tuples(st.just("exc"), tick, st.sampled_from((1, 2, 4, 6, 11))).map(list),
+        st.tuples(st.just("lone"), st.integers(1, 20), tick).map(list), st.tuples(st.just("frag"), st.integers(1, 20), tick, tick).map(list),
+        st.tuples(st.just("dup"), tick, tick).map(list), st.tuples(st.just("eof"), tick).map(list),
+        st.tuples(st.just("reset"), tick, err).map(list), st.tuples(st.just("senderr"), err).map(list), st.tuples(st.just("recverr"), tick, err).map(list))
+
+    @st.composite
+    def cases(draw):
+        family = draw(st.sampled_from(("ET", "DT", "ES")))
+        port = 8899 if family == "ES" else draw(st.sampled_from((8899, 502)))
+        conn = st.lists(st.sampled_from(("ok", "ok", "refused", "unreachable", "hostunreach", "hangs", "gaierror") if port == 502 else ("ok", "ok", "ok", "unreachable", "gaierror")), max_size=3)
+        step = st.fixed_dictionaries({"script": st.lists(simple, max_size=4), "default": st.sampled_from((["drop"], ["answer", 1], ["answer", 1])),
+                                      "connect": conn, "gap": st.sampled_from((0, 0, 3, 50))})
+        return {"free": True, "family": family, "port": port, "keep": draw(st.booleans()), "T": draw(st.sampled_from((0.5, 1.0))),
+                "R": draw(st.integers(0, 2)), "steps": draw(st.lists(step, min_size=2, max_size=8))}
+
+    def body(case):
+        if len(acc.samples) < 2:
+            acc.sample(case)
+        return run_free_history(acc, case)
+
+    harness.hyp_search(acc, body, [cases()], seed=seed, max_examples=n, max_buckets=6)
+    return acc
+
+
 def hist_job(job):
     family, port, keep, first, maxlen, alphabet = job
     acc = Acc()
@@ -498,6 +585,8 @@ def run(ctx):
     ctx.shard(hist_job, hjobs, "B: all histories over {S,F,R} of length 2..8 (lengths 0..1 trivial)")
     ctx.exhaustive_parts.append("B: all 3^2..3^8 histories over {success, failed, rejected} and all histories up to length %d over {success, "
                                 "failed by silence, rejected, failed by transport error} per listed (family, port, keep-alive)" % ctx.pick(5, 7))
+    nb = ctx.pick(1600, 30000)
+    ctx.shard(hyp_b_job, [(ctx.seed * 1000 + 500 + i, nb // 16) for i in range(16)], "B: hypothesis histories of single requests with free fault scripts (counter follows the observed outcomes)")
     m = ctx.pick(1200, 25000)
     ijobs = []
     for t in ("discover", "ES", "ET", "DT"):
@@ -508,7 +597,9 @@ def run(ctx):
 
 
 def replay(ctx, case):
-    if "hist" in case:
+    if case.get("free"):
+        _apply(ctx.acc, case, run_free_history)
+    elif "hist" in case:
         _apply(ctx.acc, case, run_history)
     elif "ident" in case:
         _apply(ctx.acc, case, run_ident)
